@@ -13,6 +13,7 @@ deriving Repr, DecidableEq, Inhabited
 
 inductive Atom
   | t (s : Str) | dt (s : Str) | tab | br | cr | nbh
+  | brT (ty : Str)   -- `w:br` with a `w:type` (page / column / textWrapping)
   | cref (id : Str) | fld (ty : FldTy) | instr (s : Str) | other (xml : Str)
 deriving Repr, DecidableEq, Inhabited
 
@@ -120,7 +121,7 @@ def onOffTrue : Option Str → Bool
 def atomText : Atom → Str
   | .t s | .dt s => s.map fun c => if c = '\t' then ' ' else c
   | .tab => [' ']
-  | .br | .cr => ['\n']
+  | .br | .cr | .brT _ => ['\n']
   | _ => []
 
 def runText (r : Run) : Str := r.ch.flatMap atomText
@@ -131,6 +132,7 @@ def atomDocxText : Atom → Str
   | .t s => s
   | .tab => ['\t']
   | .br | .cr => ['\n']
+  | .brT ty => if ty = "textWrapping".toList then ['\n'] else []   -- python-docx: page / column breaks give ""
   | .nbh => ['-']
   | _ => []
 
